@@ -121,7 +121,7 @@ func main() {
 	caseNo := 0
 	runCase := func(secret [32]byte, lens []int, mode string) {
 		caseNo++
-		r.Eval()
+		r.Evals(len(lens)) // a case = one message (payload, reader mode, position in its sequence)
 		acc, err1 := crypto.NewSecureSessionFromSharedKey(secret)
 		ctl, err2 := crypto.NewSecureClientSessionFromSharedKey(secret)
 		if err1 != nil || err2 != nil {
